@@ -25,3 +25,6 @@ Corr.vos Corr.vok Corr.required_vos: Corr.v PyAst.vos PyVal.vos PySem.vos XLemma
 Defaults.vo Defaults.glob Defaults.v.beautified Defaults.required_vo: Defaults.v PyAst.vo
 Defaults.vio: Defaults.v PyAst.vio
 Defaults.vos Defaults.vok Defaults.required_vos: Defaults.v PyAst.vos
+Sym.vo Sym.glob Sym.v.beautified Sym.required_vo: Sym.v PyAst.vo PyVal.vo PySem.vo XLemmas.vo Unfold.vo
+Sym.vio: Sym.v PyAst.vio PyVal.vio PySem.vio XLemmas.vio Unfold.vio
+Sym.vos Sym.vok Sym.required_vos: Sym.v PyAst.vos PyVal.vos PySem.vos XLemmas.vos Unfold.vos
